@@ -246,7 +246,10 @@ def _ann_src(backend, f):
         a = f"Index[{d['ann']}]"
     else:
         raise HarnessError(f"unknown style {style}")
-    return f"Optional[{a}]" if f.get("optional") else a
+    if not f.get("optional"):
+        return a
+    sp_ = f.get("opt_spelling", "Optional")
+    return f"Union[{a}, None]" if sp_ == "Union" else f"{a} | None" if sp_ == "pep604" else f"Optional[{a}]"
 
 
 def _target_src(spec, t):
@@ -326,12 +329,12 @@ def _cfg_lit(backend, k, v):
 
 PRELUDE = {
     "pandas": ("import numpy as np, pandas as pd, pandera as pa\n"
-               "from typing import Optional, Annotated\n"
+               "from typing import Optional, Annotated, Union\n"
                "from pandera.typing import Series, Index\n"
                "from pandera.api.pandas.model_config import BaseConfig as _BaseConfig\n"
                "from harness.props import _c16_rt as _rt\n"),
     "polars": ("import polars as pl, pandera as pa, pandera.polars as pap\n"
-               "from typing import Optional\n"
+               "from typing import Optional, Union\n"
                "from pandera.typing.polars import Series\n"
                "from pandera.api.polars.model_config import BaseConfig as _BaseConfig\n"
                "from harness.props import _c16_rt as _rt\n"),
